@@ -11,7 +11,12 @@ CONSTANTS
   CoroMode = TRUE
   Hooked = {l1}
   RegEmit = 2
+  Sigs = {1}
+  Rebinds = {}
+  Rebound = {}
+  MaxCancel = 2
+  Shells = FALSE
   Strict = FALSE
 INVARIANTS TypeOK ChainWellFormed CurValid AllWaitingGetIt OncePerEmit NoDanglingRead ReAwaitMissesNone DisconnectWakesAll CallbackAnswers NoStuckState
-PROPERTIES DisconnectPromisesCancel AwaitDisconnectedFails CallbacksFreed
+PROPERTIES DisconnectPromisesCancel AwaitDisconnectedFails AwaitAliveSubscribes RebindFollowsSource CallbacksFreed
 CHECK_DEADLOCK FALSE
